@@ -56,9 +56,9 @@ MUTANTS = [
     dict(name="c02-merge-skip-last-register", props=["C02"], edits=[(HL, "    for i in range(m):\n        registers[i] = max(registers[i], other_registers[i])", "    for i in range(m - 1):\n        registers[i] = max(registers[i], other_registers[i])")]),
     dict(name="c02-rank-cap-32", props=["C02", "C17"], edits=[(HL, "    rank = _n_leading_zeros64(bits) - p + 1\n", "    rank = min(_n_leading_zeros64(bits) - p + 1, 32)\n")]),
     dict(name="c02-ngram-skips-last-window", props=["C02", "C12"], edits=[(HL, "        for i in range(key_len - (ngram - uint64(1))):\n            _add(registers, seed, p, m, key[i : i + ngram])", "        for i in range(key_len - ngram):\n            _add(registers, seed, p, m, key[i : i + ngram])")]),
-    dict(name="c02-add-value0-skipped", props=["C02", "C12"], edits=[(HL, "        _add(self.registers, self.seed, self.p, self.m, key)\n", "        if value:\n            _add(self.registers, self.seed, self.p, self.m, key)\n")]),
+    dict(name="c02-add-value0-skipped", props=["C02"], edits=[(HL, "        _add(self.registers, self.seed, self.p, self.m, key)\n", "        if value:\n            _add(self.registers, self.seed, self.p, self.m, key)\n")]),
     dict(name="c02-nlz-shift8-branch", props=["C02"], edits=[(HL, "    y = x >> uint64(8)\n    if y != zero:\n        n = n - uint8(8)", "    y = x >> uint64(8)\n    if y > uint64(1):\n        n = n - uint8(8)")]),
-    dict(name="c02-seed-truncated-32", props=["C02", "C10", "C15"], edits=[(HL, "    hash_val = fasthash64(key, seed)\n", "    hash_val = fasthash64(key, seed & uint64(0xFFFFFFFF))\n")]),
+    dict(name="c02-seed-truncated-32", props=["C02"], edits=[(HL, "    hash_val = fasthash64(key, seed)\n", "    hash_val = fasthash64(key, seed & uint64(0xFFFFFFFF))\n")]),
     # ---- C17 / C07
     dict(name="c17-5m-to-4m", props=["C17", "C07"], edits=[(HL, "        if cardinality <= float64(5 * m):", "        if cardinality <= float64(4 * m):")]),
     dict(name="c17-bias-table-row-minus-1", props=["C17", "C07"], edits=[(HL, "        self.bias_data = bias_data[int(self.p) - 7, :]", "        self.bias_data = bias_data[int(self.p) - 8, :]")]),
@@ -217,4 +217,62 @@ MUTANTS = [
             if other_cms[row, col] > uint_maxval - cms[row, col]:""", """    for row in prange(depth):
         for col in range(width - (width & 1) * (width > 1)):
             if other_cms[row, col] > uint_maxval - cms[row, col]:""")]),
+    # ---- C10
+    dict(name="c10-log8-load-drops-bookkeeping", props=["C10"], edits=[(CM, """            cms = CountMinLog8(*args, shared_memory=shared_memory)
+            np.copyto(cms.cms, npzfile["cms"])
+            np.copyto(cms.n_added_records, npzfile["n_added_records"])""", """            cms = CountMinLog8(*args, shared_memory=shared_memory)
+            np.copyto(cms.cms, npzfile["cms"])""")]),
+    dict(name="c10-log16-save-omits-num-reserved", props=["C10"], edits=[(CM, """            args=np.array([self.width, self.depth, self.max_count, self.num_reserved]),""", """            args=np.array([self.width, self.depth, self.max_count]),""")]),
+    dict(name="c10-module-load-dispatch-swapped", props=["C10"], edits=[(CM, """    elif cms_dtype == np.uint16:
+        return CountMinLog16.load(filename, shared_memory)
+    elif cms_dtype == np.uint8:
+        return CountMinLog8.load(filename, shared_memory)""", """    elif cms_dtype == np.uint16:
+        return CountMinLog16.load(filename, shared_memory)
+    else:
+        return CountMinLinear.load(filename, shared_memory)""")]),
+    dict(name="c10-hh-load-skips-key-lens", props=["C10", "C13"], edits=[(HH, """            np.copyto(hh.key_lens, npzfile["key_lens"])\n""", "")]),
+    dict(name="c10-hh-phi-saved-as-float32", props=["C10"], edits=[(HH, """            phi = np.float64(args[3])""", """            phi = np.float64(np.float32(args[3]))""")]),
+    dict(name="c10-hll-load-shm-skips-copy", props=["C10", "C16"], edits=[(HL, """            hll = HyperLogLog(*args, shared_memory=shared_memory)
+            np.copyto(hll.registers, npzfile["hll"])""", """            hll = HyperLogLog(*args, shared_memory=shared_memory)
+            if not shared_memory:
+                np.copyto(hll.registers, npzfile["hll"])""")]),
+    # ---- C15
+    dict(name="c15-hll-no-seed-check", props=["C15"], edits=[(HL, "        if self.p != other.p or self.seed != other.seed:", "        if self.p != other.p:")]),
+    dict(name="c15-hll-seed-compared-as-uint32", props=["C15"], edits=[(HL, "        if self.p != other.p or self.seed != other.seed:", "        if self.p != other.p or np.uint32(self.seed & np.uint64(0xFFFFFFFF)) != np.uint32(other.seed & np.uint64(0xFFFFFFFF)):")]),
+    dict(name="c15-log8-no-max-count-check", props=["C15"], edits=[(CM, """            or self.max_count != other.max_count
+            or self.num_reserved != other.num_reserved
+        ):
+            raise TypeError(
+                "self and other have different width|depth|type|max_count|num_reserved"
+            )
+
+        _merge_log8(""", """            or self.num_reserved != other.num_reserved
+        ):
+            raise TypeError(
+                "self and other have different width|depth|type|max_count|num_reserved"
+            )
+
+        _merge_log8(""")]),
+    dict(name="c15-hh-no-max-key-len-check", props=["C15"], edits=[(HH, """            or self.depth != other.depth
+            or self.max_key_len != other.max_key_len
+        ):
+            raise TypeError("self and other have different width | depth | max_key_len")""", """            or self.depth != other.depth
+        ):
+            raise TypeError("self and other have different width | depth | max_key_len")""")]),
+    dict(name="c15-linear-type-check-after-counters", props=["C15"], edits=[(CM, """        if (
+            self.width != other.width
+            or self.depth != other.depth
+            or self.uint_maxval != other.uint_maxval
+        ):
+            raise TypeError("self and other have different width | depth | type")
+
+        _merge_linear(""", """        if self.width != other.width or self.depth != other.depth:
+            raise TypeError("self and other have different width | depth | type")
+        self.n_added_records[1] += other.n_added_records[1]
+        if self.uint_maxval != other.uint_maxval:
+            raise TypeError("self and other have different width | depth | type")
+        self.n_added_records[1] -= other.n_added_records[1]
+
+        _merge_linear(""")]),
+    dict(name="c15-hh-raises-valueerror", props=["C15"], edits=[(HH, """            raise TypeError("self and other have different width | depth | max_key_len")""", """            raise ValueError("self and other have different width | depth | max_key_len")""")]),
 ]
